@@ -77,9 +77,20 @@ func genC07(e *emitter, tier string, seed uint64) {
 			txs := genSigTx(r, shape[0], shape[1], false)
 			d := descTx(txs)
 			for idx := 0; idx < shape[0]; idx++ {
-				for _, ht := range []byte{0x01, 0x02, 0x03, 0x41, 0x42, 0x43, 0x63, 0x81, 0x83, 0xc1, 0xc3, 0xe3} {
+				// every hash-type byte whose base type is NONE / SINGLE or undefined — with and without the undefined bits
+				// 0x20 / 0x10 / 0x08 / 0x04 set (masked and exact comparisons of the hash type must agree) — plus ALL
+				var hts []byte
+				for ht := 0; ht < 256; ht++ {
+					if b := ht & 0x1f; ht&0x03 == 0x03 || ht&0x03 == 0x02 || b == 0 || b > 3 || ht == 0x01 || ht == 0x41 || ht == 0x81 || ht == 0xc1 {
+						hts = append(hts, byte(ht))
+					}
+				}
+				for _, ht := range hts {
 					sig := append(append([]byte{}, fake[:len(fake)-1]...), ht)
 					for _, fl := range []int{0, fForkID, fForkID | fAfterGenesis, fStrictEnc} {
+						if quick && fl != 0 && fl != fForkID && ht&0x3c != 0 {
+							continue
+						}
 						res := e.run("IX.total", fmt.Sprint(fl), hexE(rawPush(sig)), hexE(append(rawPush(k.pubC), 0xac)), d, fmt.Sprint(idx), "1000", "1")
 						e.note("sighash-edge." + strings.Fields(res)[0])
 					}
